@@ -352,7 +352,7 @@ pub fn live_paths(rng: &mut Rng, n: usize) -> Vec<(ProcfsBase, Vec<u8>)> {
     out
 }
 
-const FLAGSETS: [i32; 10] = [
+const FLAGSETS: [i32; 11] = [
     libc::O_PATH,
     libc::O_PATH | libc::O_NOFOLLOW,
     libc::O_PATH | libc::O_DIRECTORY,
@@ -363,6 +363,8 @@ const FLAGSETS: [i32; 10] = [
     libc::O_RDONLY | libc::O_DIRECTORY | libc::O_NOFOLLOW,
     libc::O_RDONLY | libc::O_CREAT,
     libc::O_TMPFILE | libc::O_RDWR,
+    // the bare __O_TMPFILE bit: a trailing slash on the path adds O_DIRECTORY and completes O_TMPFILE
+    0o20000000 | libc::O_RDWR,
 ];
 
 /// C07: live paths × flags × APIs × both resolvers on a private full procfs handle
@@ -371,10 +373,33 @@ pub fn suite_live(ctx: &mut Ctx, seed: u64, n: usize) {
     let mut rng = Rng::new(seed);
     let paths = live_paths(&mut rng, n);
     let mut id = 0;
+    // fixed rows that always run: creation requests on (magic-)links spelled with a trailing slash
+    let fixed_rows: Vec<(ProcfsBase, Vec<u8>, Api, i32)> = {
+        let mut v = Vec::new();
+        for sub in [&b"cwd/"[..], b"root/", b"exe/", b"fd/0/", b"ns/mnt/", b"cwd", b"task/"] {
+            for fl in [0o20000000 | libc::O_RDWR, libc::O_TMPFILE | libc::O_RDWR, libc::O_CREAT | libc::O_WRONLY, libc::O_EXCL] {
+                for api in [Api::OpenFollow, Api::Open] {
+                    v.push((ProcfsBase::ProcSelf, sub.to_vec(), api, fl));
+                }
+            }
+        }
+        v
+    };
+    let rows: Vec<(ProcfsBase, Vec<u8>, Option<(Api, i32)>)> = fixed_rows
+        .into_iter()
+        .map(|(b, s, a, f)| (b, s, Some((a, f))))
+        .chain(paths.iter().map(|(b, s)| (*b, s.clone(), None)))
+        .collect();
     for kind in [HKind::FsopenFull, HKind::UnsafeOpen] {
-        for (base, sub) in &paths {
-            let api = *rng.pick(&[Api::Open, Api::Open, Api::OpenFollow, Api::Readlink]);
-            let flags = if api == Api::Readlink { libc::O_PATH } else { *rng.pick(&FLAGSETS) };
+        for (base, sub, fixed) in &rows {
+            let (api, flags) = match fixed {
+                Some((a, f)) => (*a, *f),
+                None => {
+                    let api = *rng.pick(&[Api::Open, Api::Open, Api::OpenFollow, Api::Readlink]);
+                    let flags = if api == Api::Readlink { libc::O_PATH } else { *rng.pick(&FLAGSETS) };
+                    (api, flags)
+                }
+            };
             for emulated in [false, true] {
                 if !verif::openat2_is_supported() && !emulated {
                     continue;
